@@ -46,6 +46,14 @@ GATHERATTR
 
 MAIN = """
 platforms: [default, plat]
+output:
+  result:
+    data-in: "stage0.gen/out.stdout:copy"
+    description: "key output %(pv)s"
+status-report:
+  0: {stage-weight: 0.2}
+  1: {stage-weight: 0.5}
+  2: {stage-weight: 0.3}
 variables:
   default:
     global: {uv: d-uv, pv: d-pv, n: 2, gv: "g-%(pv)s"}
@@ -150,6 +158,11 @@ def project(exp):
     out["platform"] = wg.configuration.platform_name
     out["globals"] = wg.configuration.get_global_variables()
     out["stages"] = wg.numberStageConfigurations
+    concrete = wg.configuration.get_flowir_concrete(return_copy=True)
+    out["output"] = concrete.get_output()
+    out["status-report"] = concrete.get_status()
+    out["interface"] = concrete.get_interface()
+    out["application-dependencies"] = concrete.get_application_dependencies()
     return json.loads(json.dumps(out, sort_keys=True, default=str))
 
 
@@ -278,19 +291,22 @@ class History:
         shutil.rmtree(self.scratch, ignore_errors=True)
 
 
-def key_of(pk, site, hist):
-    feats = []
-    if pk["plat"] != "default":
-        feats.append("platform")
-    if pk["uv"] != "none":
-        feats.append("uservars-" + pk["uv"])
-    if pk["repl"]:
-        feats.append("replication")
-    if pk["loop"]:
-        feats.append("dowhile")
+def key_of(pk, site, hist, detail=""):
+    """canonical class of a failing history: observation site x what differs (field / part of the projection / exception
+    type) x which dynamic changes preceded the reload.  Package features are not part of the key (they are in the text)."""
     acts = [h["a"] for h in hist]
     dyn = "+".join(a for a in ("Iterate", "Patch") if a in acts) or "static"
-    return "%s:%s:%s" % (site, "+".join(feats) or "plain", dyn)
+    return "%s:%s:%s" % (site, detail or "-", dyn)
+
+
+def diff_class(d):
+    """'/nodes/stage1.0#work0/resolved/command/arguments: ...' -> 'nodes/resolved/command'"""
+    parts = d.split(":", 1)[0].strip("/").split("/")
+    if parts and parts[0] == "nodes":
+        parts = ["nodes"] + parts[2:4]
+    else:
+        parts = parts[:1]
+    return "/".join(parts)
 
 
 def label(pk):
@@ -308,8 +324,8 @@ def run_history(args):
     res = {"viol": [], "steps": 0, "loads": 0}
     h = History(pk, scratch)
 
-    def viol(site, i, msg):
-        res["viol"].append((key_of(pk, site, hist[:i + 1]), "package %s, history [%s]: %s" % (label(pk), hist_str(hist[:i + 1]), msg),
+    def viol(site, i, msg, detail=""):
+        res["viol"].append((key_of(pk, site, hist[:i + 1], detail), "package %s, history [%s]: %s" % (label(pk), hist_str(hist[:i + 1]), msg),
                             {"pk": pk, "hist": hist[:i + 1]}))
     try:
         for i, step in enumerate(hist):
@@ -332,7 +348,7 @@ def run_history(args):
                 raise
             except Exception as e:
                 if a in ("Load", "Store", "Iterate"):
-                    viol("raises-%s" % a, i, "%s raised %s: %s" % (a, type(e).__name__, str(e)[:300]))
+                    viol("raises-%s" % a, i, "%s raised %s: %s" % (a, type(e).__name__, str(e)[:300]), type(e).__name__)
                     break
                 raise
             res["steps"] += 1
@@ -348,24 +364,27 @@ def run_history(args):
                 bad["replicas per iteration"] = ("differ", "equal")
             if bad:
                 if a == "Load":
-                    viol("view-after-load", i, "the reloaded experiment differs from the specification (observed, specified): %s" % bad)
+                    viol("view-after-load", i, "the reloaded experiment differs from the specification (observed, specified): %s" % bad,
+                         "+".join(sorted(k.split()[-1] for k in bad)))
                 elif a == "Create":
                     # how a package is resolved at creation is the subject of C04; for C07 it is the baseline
                     raise MachineryError("package %s: the created experiment does not match View (spec drift): %s" % (label(pk), bad))
                 else:
-                    viol("view-after-%s" % a, i, "the experiment in memory differs from the specification (observed, specified): %s" % bad)
+                    viol("view-after-%s" % a, i, "the experiment in memory differs from the specification (observed, specified): %s" % bad,
+                         "+".join(sorted(k.split()[-1] for k in bad)))
             if a == "Load":
                 res["loads"] += 1
                 after = project(h.exp)
                 d = diff(h.stored_projection, after)
                 if d:
                     viol("projection-after-load", i, "%d difference(s) between the experiment that wrote the directory and the reloaded one: %s" % (
-                        len(d), "; ".join(x[:300] for x in d[:4])))
+                        len(d), "; ".join(x[:300] for x in d[:4])), diff_class(d[0]))
                 if flag:
                     now = canon_files(h.loc)
                     d = diff(before_files, now)
                     if d:
-                        viol("stored-description-changed", i, "load + store changed the stored description: %s" % "; ".join(x[:300] for x in d[:4]))
+                        viol("stored-description-changed", i, "load + store changed the stored description: %s" % "; ".join(x[:300] for x in d[:4]),
+                             d[0].split(":", 1)[0].strip("/").split("/")[0])
                     h.stored_files = now
                 # from now on the reloaded experiment is "the experiment"; what it would write is what it read
                 h.stored_projection = after
